@@ -8,6 +8,9 @@ The header generator is arbitrary: whatever `createHeader` returned is the block
 -/
 import ReuseVerif.Lemmas.Splice
 import ReuseVerif.Lemmas.FirstLine
+import ReuseVerif.Lemmas.C08FirstLineOld
+import ReuseVerif.Lemmas.C08SpliceGeneral
+import ReuseVerif.Lemmas.C08FirstLineGeneral
 namespace C08
 open Py Model Spec C08L C10L
 
@@ -90,6 +93,32 @@ theorem C08_splice_replace {c : HdrCfg} {info : Extracted} {t out : Text}
       refine ⟨h1, ?_⟩
       exact (List.append_eq_nil_iff.mp (ha.trans h2)).2
 
+/-- **Table obligation.**  The pseudo styles declare no first-line markers. -/
+theorem C08_pseudo_table : ∀ s ∈ Generated.styles, s.isEmptyStyle = true → s.shebangs = [] := by
+  decide +kernel
+
+/-- **Replacing mode, no hypothesis on the text** (`NoExoticBreaks` lifted).  For every style of the table but the
+    `.license` pseudo style, every request and *every* text: a successful `find_and_replace_header` cuts the text
+    as `pre ++ old ++ post = t` — `pre` is what stands above the block found, `post` what `_find_first_spdx_comment`
+    leaves below it, `old` the region between — and
+    * either the output is `SpliceAt hdr pre post` (above: `pre` without white space at its ends and one empty line;
+      below: `post` byte for byte, possibly after one empty line) — in particular every character outside `old` is
+      kept, whatever line boundaries the text uses;
+    * or `pre` is white space only and the shebang loop took marker lines *out of the block found*: what stands
+      above the header is then `sbl`, the first `j` lines of the text from the block on as `str.splitlines()`
+      reads them (`splitLines sbl = (splitLines (old ++ post)).take j`), each written with a `\n` line end, and the
+      output is `SpliceAt hdr sbl post` — a form feed or a lone `\r` between two marker lines is rewritten to `\n`,
+      no line is lost or reordered.
+    Under `NoExoticBreaks`, `C08_splice_replace` says more in the second case (`sbl` is a substring of the text). -/
+theorem C08_splice_replace_general {c : HdrCfg} {info : Extracted} {t out : Text} (hs : c.style ∈ Generated.styles)
+    (hstyle : (c.style.name == "EmptyCommentStyle") = false)
+    (h : findAndReplaceHeader c info t = .ok out) :
+    ∃ hdr oldHdr pre old post, createHeader c info oldHdr = .ok hdr ∧ pre ++ old ++ post = t ∧
+      (SpliceAt hdr pre post out ∨
+       (Blank pre ∧ ∃ j sbl, sbl = (((splitLines (old ++ post)).take j).map (· ++ ['\n'])).flatten ∧
+          splitLines sbl = (splitLines (old ++ post)).take j ∧ SpliceAt hdr sbl post out)) :=
+  splice_replace_general hstyle (C08_pseudo_table _ hs) h
+
 /-- **The `.license` pseudo style** (no shebang list): everything from the first position on whose rest
     holds REUSE information — the whole file when there is none — is the block; what stands above is kept
     as in the other styles, nothing stands below. -/
@@ -167,6 +196,21 @@ theorem C08_head {hdr pre post out : Text} (hs : SpliceAt hdr pre post out) (hnb
   cases hA with
   | none hb => exact absurd hb hnb
   | kept w₁ core w₂ hp h1 h2 hne _ => exact ⟨w₁, core, w₂, hp, h1, h2, hne, b, by rw [ho]⟩
+
+/-- … so text below the block that is not white space only is a suffix of the output, for every text -/
+theorem C08_tail_general {c : HdrCfg} {info : Extracted} {t out : Text} (hs : c.style ∈ Generated.styles)
+    (hstyle : (c.style.name == "EmptyCommentStyle") = false)
+    (h : findAndReplaceHeader c info t = .ok out) :
+    ∃ pre old post, pre ++ old ++ post = t ∧ (¬ Blank post → post <:+ out ∧ out.getLast? = t.getLast?) := by
+  obtain ⟨hdr, _, pre, old, post, _, hcut, hsp⟩ := C08_splice_replace_general hs hstyle h
+  refine ⟨pre, old, post, hcut, fun hnb => ?_⟩
+  rcases hsp with hsp | ⟨_, _, sbl, _, _, hsp⟩
+  · have := C08_tail (old := old) hsp hnb
+    rw [hcut] at this; exact this
+  · have := C08_tail (old := old) hsp hnb
+    refine ⟨this.1, ?_⟩
+    have hne : post ≠ [] := fun h0 => hnb (by rw [h0]; decide)
+    rw [this.2, ← hcut, getLast?_append_ne _ hne, getLast?_append_ne _ hne]
 
 /-- **Line endings, CRLF.**  Annotating the CRLF form of an LF text gives the CRLF form of what annotating
     the LF text gives: every line break written is CRLF and nothing else differs. -/
@@ -273,6 +317,97 @@ theorem C08_first_line_replace_new {c : HdrCfg} {info : Extracted} {t out sb : T
   have hpre := extractShebang_starts hne hnbk hst
   exact ⟨_, _, (extractShebang_append sb t).symm, hpre, placed_first _ hout hpre hnb⟩
 
+/-- **Shebang stays first, replacing mode, a header already in the file.**  For every style of the table, every
+    text whose only line boundary is `\n`: when the text starts with one of the style's first-line markers (`sb`,
+    the first that fits) and `_find_first_spdx_comment` finds a block, then `t = sbl ++ rest`, `sbl` starts with
+    `sb`, and the output starts with `rstrip sbl ++ "\n\n"`.  Two situations: the old block stands below other text
+    — then `sbl` is everything above it, which begins with the marker line (white space above a block cannot hold
+    the marker, so the text above is not blank and the shebang loop does nothing); or the old block stands at the
+    top and the marker line is *inside* it (`#!/bin/sh` directly followed by `# SPDX-…` in the Python style) —
+    then the loop picks the first marker the block starts with, which is `sb`, and `sbl` is the block's leading
+    marker lines, moved out of the block and kept first.  (`NoExoticBreaks` is needed in the second situation only,
+    `b0 = ""`: with a form feed inside the block the marker lines moved out are not a substring of the text — the
+    break is rewritten to `\n`; see `C08_splice_replace_general` for the line-level statement.) -/
+theorem C08_first_line_replace_old {c : HdrCfg} {info : Extracted} {t out sb b0 h0 a0 : Text}
+    (hs : c.style ∈ Generated.styles) (hstyle : (c.style.name == "EmptyCommentStyle") = false)
+    (hno : b0 = [] → NoExoticBreaks t) (h : findAndReplaceHeader c info t = .ok out)
+    (hsome : findFirstSpdxComment c t = some (b0, h0, a0))
+    (hf : c.style.shebangs.find? (startsWith t ·) = some sb) :
+    ∃ sbl rest, t = sbl ++ rest ∧ sb <+: sbl ∧ (rstrip sbl ++ ['\n', '\n']) <+: out := by
+  obtain ⟨hdr, _, hout⟩ := C08_replace_sections h
+  have hsec : replaceSections c t = moveShebang c.style.shebangs b0 h0 a0 := by
+    unfold replaceSections
+    simp only [hsome, hstyle, Bool.false_eq_true, if_false]
+  rw [hsec] at hout
+  rw [hout]
+  exact first_line_old hno hsome (C08_shebang_table _ hs) hf hdr
+
+/-- **Shebang stays first, replacing mode** (with or without a header in the file): `C08_first_line_replace_new`
+    and `C08_first_line_replace_old` together. -/
+theorem C08_first_line_replace {c : HdrCfg} {info : Extracted} {t out sb : Text}
+    (hs : c.style ∈ Generated.styles) (hstyle : (c.style.name == "EmptyCommentStyle") = false)
+    (hno : NoExoticBreaks t) (h : findAndReplaceHeader c info t = .ok out)
+    (hf : c.style.shebangs.find? (startsWith t ·) = some sb) :
+    ∃ sbl rest, t = sbl ++ rest ∧ sb <+: sbl ∧ (rstrip sbl ++ ['\n', '\n']) <+: out := by
+  cases hfound : findFirstSpdxComment c t with
+  | none => exact C08_first_line_replace_new hs hstyle h hfound hf
+  | some x =>
+    obtain ⟨b0, h0, a0⟩ := x
+    exact C08_first_line_replace_old hs hstyle (fun _ => hno) h hfound hf
+
+/-- **First line stays first, replacing mode, every text** (no hypothesis on line boundaries; line level).  For
+    every style of the table, every request and every text that starts with one of the style's first-line markers
+    (`sb`, the first that fits): the text's first line `l` — as `str.splitlines()` reads it — starts with `sb`, and
+    the first line of the output is `l`, or `l` without its trailing white space (when nothing but white space
+    follows it above the header).  Covers: no header in the file, marker line above the old block, marker line
+    inside the old block at the top (also when a form feed or a lone `\r` separates it from the rest of the block:
+    the boundary is rewritten to `\n`, the line stays first). -/
+theorem C08_first_line_general {c : HdrCfg} {info : Extracted} {t out sb : Text}
+    (hs : c.style ∈ Generated.styles) (hstyle : (c.style.name == "EmptyCommentStyle") = false)
+    (h : findAndReplaceHeader c info t = .ok out)
+    (hf : c.style.shebangs.find? (startsWith t ·) = some sb) :
+    ∃ l ls, splitLines t = l :: ls ∧ sb <+: l ∧
+      ((splitLines out).head? = some l ∨ (splitLines out).head? = some (rstrip l)) := by
+  obtain ⟨hdr, _, hout⟩ := C08_replace_sections h
+  have hmem := List.mem_of_find?_eq_some hf
+  obtain ⟨hne, hnbk, hnb⟩ := C08_shebang_table _ hs sb hmem
+  have hst : startsWith t sb = true := by simpa using List.find?_some hf
+  cases hfound : findFirstSpdxComment c t with
+  | none =>
+    have hsec : replaceSections c t = ((extractShebang sb t).1, [], (extractShebang sb t).2) := by
+      unfold replaceSections
+      simp only [hfound, hstyle, Bool.false_eq_true, if_false]
+      rw [moveShebang_nil _ _ (fun x hx => (C08_shebang_table _ hs x hx).1), hf]
+    rw [hsec] at hout
+    obtain ⟨l, ls, hlines, hlnb, hsbl, hbeg⟩ := first_line_of_extract hne hnbk hst
+    exact ⟨l, ls, hlines, hsbl,
+      first_line_placed hlnb hbeg (placed_first _ hout (extractShebang_starts hne hnbk hst) hnb)⟩
+  | some x =>
+    obtain ⟨b0, h0, a0⟩ := x
+    have hsec : replaceSections c t = moveShebang c.style.shebangs b0 h0 a0 := by
+      unfold replaceSections
+      simp only [hfound, hstyle, Bool.false_eq_true, if_false]
+    rw [hsec] at hout
+    obtain ⟨l, ls, hlines, hlnb, hbeg, sbl, hbsbl, hpre⟩ :=
+      first_line_general_old (C08_pseudo_table _ hs) hfound (C08_shebang_table _ hs) hmem hst hdr
+    rw [← hout] at hpre
+    exact ⟨l, ls, hlines, prefix_of_line (List.isPrefixOf_iff_prefix.mp hst) hnbk hbeg, first_line_placed hlnb hbsbl hpre⟩
+
+/-- the same for `--no-replace` -/
+theorem C08_first_line_add_general {c : HdrCfg} {info : Extracted} {t out sb : Text}
+    (hs : c.style ∈ Generated.styles) (h : addNewHeader c info t = .ok out)
+    (hf : c.style.shebangs.find? (startsWith t ·) = some sb) :
+    ∃ l ls, splitLines t = l :: ls ∧ sb <+: l ∧
+      ((splitLines out).head? = some l ∨ (splitLines out).head? = some (rstrip l)) := by
+  obtain ⟨hdr, _, hout⟩ := C08_add_sections h
+  obtain ⟨hne, hnbk, hnb⟩ := C08_shebang_table _ hs sb (List.mem_of_find?_eq_some hf)
+  have hst : startsWith t sb = true := by simpa using List.find?_some hf
+  have hsec : addSections c t = extractShebang sb t := by simp [addSections, hf]
+  rw [hsec] at hout
+  obtain ⟨l, ls, hlines, hlnb, hsbl, hbeg⟩ := first_line_of_extract hne hnbk hst
+  exact ⟨l, ls, hlines, hsbl,
+    first_line_placed hlnb hbeg (placed_first false hout (extractShebang_starts hne hnbk hst) hnb)⟩
+
 /-! ### non-vacuity: the hypotheses are satisfiable, the relation is not trivial
 
 (That `findAndReplaceHeader … = .ok out` is satisfiable is shown on every run by the correspondence streams —
@@ -287,6 +422,25 @@ example : placeHeader "# h".toList "#!/bin/sh  \n".toList "x = 1\n".toList false
 example : placeHeader "# h".toList " \n".toList "\nx = 1".toList true = "# h\n\nx = 1".toList := by decide
 example : SpliceAt "# h".toList "#!/bin/sh  \n".toList "x = 1\n".toList "#!/bin/sh\n\n# h\n\nx = 1\n".toList :=
   placeHeader_spliceAt "# h".toList "#!/bin/sh  \n".toList "x = 1\n".toList false
+/-- the two situations of `C08_first_line_replace_old`: marker line inside the old block at the top (moved out, kept
+    first), and marker line above the old block (nothing moved) -/
+example : moveShebang ["#!".toList] [] "#!/bin/sh\n# SPDX-License-Identifier: MIT\n".toList "x\n".toList =
+    ("#!/bin/sh\n".toList, "# SPDX-License-Identifier: MIT\n".toList, "x\n".toList) := by decide +kernel
+example : moveShebang ["#!".toList] "#!/bin/sh\n\n".toList "# SPDX-License-Identifier: MIT\n".toList "x\n".toList =
+    ("#!/bin/sh\n\n".toList, "# SPDX-License-Identifier: MIT\n".toList, "x\n".toList) := by decide +kernel
+example : placeHeader "# h".toList "#!/bin/sh\n".toList "x\n".toList true = "#!/bin/sh\n\n# h\nx\n".toList := by decide +kernel
+/-- the second alternative of `C08_splice_replace_general`: a form feed between the shebang and the header — the
+    block is read as two lines, the marker line moved out of it is written with `\n` -/
+example : splitLines "#!/bin/sh\x0c# SPDX-License-Identifier: MIT\nx\n".toList =
+    ["#!/bin/sh".toList, "# SPDX-License-Identifier: MIT".toList, "x".toList] := by decide +kernel
+example : (extractShebang "#!".toList "#!/bin/sh\n# SPDX-License-Identifier: MIT\n".toList).1 = "#!/bin/sh\n".toList := by
+  decide +kernel
+/-- the two alternatives of `C08_first_line_general`: the first line loses its trailing blanks when it is the only
+    marker line, and is kept exactly when another marker line follows it -/
+example : (splitLines (placeHeader "# h".toList "#!/bin/sh \n".toList "x\n".toList false)).head? = some (rstrip "#!/bin/sh ".toList) := by
+  decide +kernel
+example : (splitLines (placeHeader "# h".toList "#!/bin/sh \n#!x\n".toList "x\n".toList false)).head? = some "#!/bin/sh ".toList := by
+  decide +kernel
 /-- the relation excludes something: text below the header cannot lose a character -/
 example : ¬ Below "x = 1\n".toList "x = 1".toList := by
   intro h; cases h
